@@ -24,6 +24,12 @@ func genCase(t *rapid.T) Case {
 		return c
 	}
 	c.Err = gen.ErrSpec(10).Draw(t, "err")
+	if (c.Path == "stmt" || c.Path == "xexec") && rapid.Bool().Draw(t, "cancel-session") {
+		c.CancelSess = true
+		if rapid.Bool().Draw(t, "wraps-context-error") {
+			c.Err.Wraps = rapid.SampledFrom([]string{"canceled", "deadline"}).Draw(t, "ctx-sentinel")
+		}
+	}
 	if c.Path == "direct" && len(c.Err.Layers) > 0 && rapid.Bool().Draw(t, "recheck-inner") {
 		c.Inner = 1 + rapid.IntRange(0, len(c.Err.Layers)-1).Draw(t, "inner")
 	}
